@@ -1,6 +1,15 @@
 ------------------------------ MODULE Proposer ------------------------------
 (* Block proposal of Vouch (services/beaconblockproposer/standard: service.go Prepare,          *)
-(* propose.go Propose/proposeBlock/signProposalData/unblindProposal).  One duty per behaviour.  *)
+(* propose.go Propose/proposeBlock/signProposalData/unblindProposal).                           *)
+(*                                                                                              *)
+(* One behaviour = the HISTORY of one service instance: a sequence of duties (k = 1..NDuties)    *)
+(* handled one after the other by the same service (built once, cfg never changes).  The design *)
+(* carries NOTHING from one duty to the next: NextDuty starts every duty from a clean pipeline, *)
+(* whatever happened to the earlier ones (`past` = what went wrong for earlier duties on this   *)
+(* instance: prepare / graffiti / nodeclient / auction / fetch / wrongslot / sign / unblind /    *)
+(* submit / cancelled).  Every per-duty rule below therefore holds for every duty of every      *)
+(* history, and every Propose returns (no deadlock before the last duty is done; liveness       *)
+(* property EveryDutyTerminates).                                                               *)
 (*                                                                                              *)
 (* One action per interface call the code makes (the arguments are what the code passed, the    *)
 (* outcome is what the environment answered), plus the environment's own steps:                 *)
@@ -8,6 +17,7 @@
 (*   RandaoCall      Prepare: RANDAORevealSigner.SignRANDAOReveal                               *)
 (*   ProposeCall     the controller calls Propose (validateDuty decides whether anything follows)*)
 (*   GraffitiCall    graffitiProvider.Graffiti                (only if a provider is configured)*)
+(*   NodeClientCall  proposalProvider.(NodeClientProvider).NodeClient   (graffiti has {{CLIENT}})*)
 (*   AuctionCall     blockAuctioneer.AuctionBlock           (only if an auctioneer is configured)*)
 (*   ProposalCall    proposalProvider.Proposal                                                  *)
 (*   SignCall        beaconBlockSigner.SignBeaconBlockProposal                                  *)
@@ -15,6 +25,7 @@
 (*   Cancel          the job context ends (the environment; production contexts have no deadline)*)
 (*   SubmitCall      proposalSubmitter.SubmitProposal                                           *)
 (*   Ret             Propose returns                                                            *)
+(*   NextDuty        the controller hands the next duty to the same service instance            *)
 (*                                                                                              *)
 (* The actions only have *structural* preconditions (the order of the pipeline) and record      *)
 (* whatever arguments they are given.  `Next` instantiates them with the arguments the code is  *)
@@ -28,7 +39,7 @@
 (* what a relay was sent; a submitted container is described by where it comes from.            *)
 EXTENDS Integers, FiniteSets, Sequences, TLC
 
-CONSTANTS DutySlots,        \* slots a duty can have
+CONSTANTS DutySlots,        \* slots the first duty of a service instance can have
           Validators,       \* validator indices (each has exactly its own account)
           SlotsPerEpoch,
           Relays,
@@ -36,14 +47,23 @@ CONSTANTS DutySlots,        \* slots a duty can have
           Versions,         \* {"phase0", "altair", "bellatrix", "capella", "deneb"}
           Blindable,        \* versions that have a blinded form
           Outcomes,         \* what one UnblindProposal call can do
-          MaxCalls          \* bound on calls per relay (the code tries three times)
+          MaxCalls,         \* bound on calls per relay (the code tries three times)
+          Dslots,           \* a returned proposal is for slot (duty slot + d), d \in Dslots
+          NDuties,          \* length of the history: duties handled by one service instance
+          SlotGaps,         \* the next duty is for slot (this duty's slot + g), g \in SlotGaps
+          \* bounds of the model only: the environment of the duties after the first ranges over these
+          LaterAllChoices, LaterVersions, LaterOutcomes, LaterDslots
 
-VARIABLES duty,       \* [slot, v]
-          cfg,        \* [graffiti, auctioneer, unblindAll : BOOLEAN]  (what the service was built with)
+VARIABLES k,          \* number of the duty this service instance is handling (1..NDuties)
+          past,       \* what went wrong for the earlier duties of this instance (set of FailureTags)
+          duty,       \* [slot, v]
+          cfg,        \* [graffiti, nodeclient, auctioneer, unblindAll : BOOLEAN]  (what the service was built
+                      \*  with; nodeclient: the proposal provider implements NodeClientProvider)
           pc,
           acct,       \* NoAcct or [epoch, idxs, out]
           randao,     \* NoRandao or [account, slot, out, token]
-          graffiti,   \* "none" | "ok" | "err"
+          graffiti,   \* "none" | "static" (text) | "template" (text with {{CLIENT}}) | "err" (provider failed)
+          nodeclient, \* "none" | "ok" | "err": the node client lookup for the template
           auction,    \* [kind |-> "none" | "err" | "results", all, providers]
           preq,       \* NoPreq or [slot, zerograffiti, reveal]
           prop,       \* NoProp or [version, blinded, slot, id]
@@ -56,10 +76,18 @@ VARIABLES duty,       \* [slot, v]
           submitted,  \* NoSub or a description of the submitted container
           subout      \* "none" | "ok" | "err"
 
-vars == <<duty, cfg, pc, acct, randao, graffiti, auction, preq, prop, sreq, sig, calls, sent, fulls,
-          cancelled, submitted, subout>>
+\* the pipeline of one duty
+dvars == <<pc, acct, randao, graffiti, nodeclient, auction, preq, prop, sreq, sig, calls, sent, fulls,
+           cancelled, submitted, subout>>
+\* the service instance and its history
+hvars == <<k, past, duty, cfg>>
+vars == <<hvars, dvars>>
 
 Epoch(s) == s \div SlotsPerEpoch
+
+\* values for Dslots (a configuration file cannot write a negative number: Dslots <- AllDslots)
+AllDslots == {-1, 0, 1}
+FwdDslots == {0, 1}
 
 NoAcct   == [epoch |-> -1, idxs |-> <<>>, out |-> "none"]
 NoRandao == [account |-> -1, slot |-> -1, out |-> "none", token |-> 0]
@@ -98,17 +126,35 @@ Cand == IF auction.providers = {} \/ cfg.unblindAll THEN auction.all ELSE auctio
 AfterGraffiti == IF cfg.auctioneer THEN "auction" ELSE "proposal"
 AfterValidate == IF cfg.graffiti THEN "graffiti" ELSE AfterGraffiti
 
-ProposePcs == {"invalid", "graffiti", "auction", "proposal", "confirm", "signed", "submitted"}
+\* The node client lookup (pc = "nodeclient") may be left out - the name of the beacon node's client may be
+\* known already; the property does not say - so the step after it is also possible straight away.
+At(step) == pc = step \/ (pc = "nodeclient" /\ AfterGraffiti = step)
 
-Init ==
-    /\ duty \in [slot : DutySlots, v : Validators]
-    /\ cfg \in {c \in [graffiti : BOOLEAN, auctioneer : BOOLEAN, unblindAll : BOOLEAN] :
-                    c.unblindAll => c.auctioneer}
+ProposePcs == {"invalid", "graffiti", "nodeclient", "auction", "proposal", "confirm", "signed", "submitted"}
+
+Cfgs == {c \in [graffiti : BOOLEAN, nodeclient : BOOLEAN, auctioneer : BOOLEAN, unblindAll : BOOLEAN] :
+            (c.unblindAll => c.auctioneer) /\ (c.nodeclient => c.graffiti)}
+
+CleanPipeline ==
     /\ pc = "start"
-    /\ acct = NoAcct /\ randao = NoRandao /\ graffiti = "none" /\ auction = NoAuction
+    /\ acct = NoAcct /\ randao = NoRandao /\ graffiti = "none" /\ nodeclient = "none" /\ auction = NoAuction
     /\ preq = NoPreq /\ prop = NoProp /\ sreq = NoSreq /\ sig = 0
     /\ calls = [r \in Relays |-> 0] /\ sent = {} /\ fulls = {}
     /\ cancelled = FALSE /\ submitted = NoSub /\ subout = "none"
+
+\* CleanPipeline' (TLC wants the primed variables spelled out)
+ResetPipeline ==
+    /\ pc' = "start"
+    /\ acct' = NoAcct /\ randao' = NoRandao /\ graffiti' = "none" /\ nodeclient' = "none" /\ auction' = NoAuction
+    /\ preq' = NoPreq /\ prop' = NoProp /\ sreq' = NoSreq /\ sig' = 0
+    /\ calls' = [r \in Relays |-> 0] /\ sent' = {} /\ fulls' = {}
+    /\ cancelled' = FALSE /\ submitted' = NoSub /\ subout' = "none"
+
+Init ==
+    /\ k = 1 /\ past = {}
+    /\ duty \in [slot : DutySlots, v : Validators]
+    /\ cfg \in Cfgs
+    /\ CleanPipeline
 
 -----------------------------------------------------------------------------
 (* Actions: structural preconditions only. *)
@@ -117,43 +163,52 @@ AccountsCall(epoch, idxs, out) ==
     /\ pc = "start"
     /\ acct' = [epoch |-> epoch, idxs |-> idxs, out |-> out]
     /\ pc' = IF out = "ok" THEN "randao" ELSE "prepfailed"
-    /\ UNCHANGED <<duty, cfg, randao, graffiti, auction, preq, prop, sreq, sig, calls, sent, fulls,
+    /\ UNCHANGED <<hvars, randao, graffiti, nodeclient, auction, preq, prop, sreq, sig, calls, sent, fulls,
                    cancelled, submitted, subout>>
 
 RandaoCall(account, slot, out, token) ==
     /\ pc = "randao"
     /\ randao' = [account |-> account, slot |-> slot, out |-> out, token |-> IF out = "ok" THEN token ELSE 0]
     /\ pc' = IF out = "ok" THEN "prepared" ELSE "prepfailed"
-    /\ UNCHANGED <<duty, cfg, acct, graffiti, auction, preq, prop, sreq, sig, calls, sent, fulls,
+    /\ UNCHANGED <<hvars, acct, graffiti, nodeclient, auction, preq, prop, sreq, sig, calls, sent, fulls,
                    cancelled, submitted, subout>>
 
 \* A duty without account or RANDAO reveal is not proposed for (validateDuty).
 ProposeCall ==
     /\ pc \in {"randao", "prepfailed", "prepared"}
     /\ pc' = IF pc = "prepared" THEN AfterValidate ELSE "invalid"
-    /\ UNCHANGED <<duty, cfg, acct, randao, graffiti, auction, preq, prop, sreq, sig, calls, sent, fulls,
+    /\ UNCHANGED <<hvars, acct, randao, graffiti, nodeclient, auction, preq, prop, sreq, sig, calls, sent, fulls,
                    cancelled, submitted, subout>>
 
+\* out: "static" (a text), "template" (a text containing {{CLIENT}}), "err" (the provider failed)
 GraffitiCall(out) ==
     /\ pc = "graffiti"
     /\ graffiti' = out
+    /\ pc' = IF out = "template" /\ cfg.nodeclient THEN "nodeclient" ELSE AfterGraffiti
+    /\ UNCHANGED <<hvars, acct, randao, nodeclient, auction, preq, prop, sreq, sig, calls, sent, fulls,
+                   cancelled, submitted, subout>>
+
+\* the beacon node is asked for the name of its client, to fill the template
+NodeClientCall(out) ==
+    /\ pc = "nodeclient"
+    /\ nodeclient' = out
     /\ pc' = AfterGraffiti
-    /\ UNCHANGED <<duty, cfg, acct, randao, auction, preq, prop, sreq, sig, calls, sent, fulls,
+    /\ UNCHANGED <<hvars, acct, randao, graffiti, auction, preq, prop, sreq, sig, calls, sent, fulls,
                    cancelled, submitted, subout>>
 
 AuctionCall(out, all, providers) ==
-    /\ pc = "auction"
+    /\ At("auction")
     /\ auction' = [kind |-> out, all |-> all, providers |-> providers]
     /\ pc' = "proposal"
-    /\ UNCHANGED <<duty, cfg, acct, randao, graffiti, preq, prop, sreq, sig, calls, sent, fulls,
+    /\ UNCHANGED <<hvars, acct, randao, graffiti, nodeclient, preq, prop, sreq, sig, calls, sent, fulls,
                    cancelled, submitted, subout>>
 
 ProposalCall(slot, zerograffiti, reveal, out, p) ==
-    /\ pc = "proposal"
+    /\ At("proposal")
     /\ preq' = [slot |-> slot, zerograffiti |-> zerograffiti, reveal |-> reveal]
     /\ prop' = IF out = "ok" THEN p ELSE NoProp
     /\ pc' = "confirm"
-    /\ UNCHANGED <<duty, cfg, acct, randao, graffiti, auction, sreq, sig, calls, sent, fulls,
+    /\ UNCHANGED <<hvars, acct, randao, graffiti, nodeclient, auction, sreq, sig, calls, sent, fulls,
                    cancelled, submitted, subout>>
 
 SignCall(account, slot, v, parent, state, body, out, token) ==
@@ -162,7 +217,7 @@ SignCall(account, slot, v, parent, state, body, out, token) ==
     /\ sreq' = [account |-> account, slot |-> slot, v |-> v, parent |-> parent, state |-> state, body |-> body]
     /\ sig' = IF out = "ok" THEN token ELSE 0
     /\ pc' = "signed"
-    /\ UNCHANGED <<duty, cfg, acct, randao, graffiti, auction, preq, prop, calls, sent, fulls,
+    /\ UNCHANGED <<hvars, acct, randao, graffiti, nodeclient, auction, preq, prop, calls, sent, fulls,
                    cancelled, submitted, subout>>
 
 \* The relay goroutines outlive the select in unblindProposal: calls may also arrive after the submission.
@@ -173,37 +228,78 @@ UnblindCall(r, q, out) ==
     /\ calls' = [calls EXCEPT ![r] = @ + 1]
     /\ sent' = sent \cup {[relay |-> r, q |-> q]}
     /\ fulls' = IF out = "full" THEN fulls \cup {[relay |-> r, q |-> q]} ELSE fulls
-    /\ UNCHANGED <<duty, cfg, pc, acct, randao, graffiti, auction, preq, prop, sreq, sig,
+    /\ UNCHANGED <<hvars, pc, acct, randao, graffiti, nodeclient, auction, preq, prop, sreq, sig,
                    cancelled, submitted, subout>>
 
 Cancel ==
     /\ pc \in ProposePcs
     /\ ~cancelled
     /\ cancelled' = TRUE
-    /\ UNCHANGED <<duty, cfg, pc, acct, randao, graffiti, auction, preq, prop, sreq, sig, calls, sent, fulls,
-                   submitted, subout>>
+    /\ UNCHANGED <<hvars, pc, acct, randao, graffiti, nodeclient, auction, preq, prop, sreq, sig, calls, sent,
+                   fulls, submitted, subout>>
 
 SubmitCall(desc, out) ==
     /\ pc = "signed"
     /\ submitted' = desc
     /\ subout' = out
     /\ pc' = "submitted"
-    /\ UNCHANGED <<duty, cfg, acct, randao, graffiti, auction, preq, prop, sreq, sig, calls, sent, fulls,
+    /\ UNCHANGED <<hvars, acct, randao, graffiti, nodeclient, auction, preq, prop, sreq, sig, calls, sent, fulls,
                    cancelled>>
 
 Ret ==
     /\ pc \in ProposePcs
     /\ pc' = "done"
-    /\ UNCHANGED <<duty, cfg, acct, randao, graffiti, auction, preq, prop, sreq, sig, calls, sent, fulls,
+    /\ UNCHANGED <<hvars, acct, randao, graffiti, nodeclient, auction, preq, prop, sreq, sig, calls, sent, fulls,
                    cancelled, submitted, subout>>
+
+-----------------------------------------------------------------------------
+(* The history of a service instance. *)
+
+FailureTags == {"prepare", "graffiti", "nodeclient", "auction", "fetch", "wrongslot", "sign", "unblind",
+                "submit", "cancelled"}
+
+\* what went wrong for the current duty (read when it is over)
+Failures ==
+    {t \in FailureTags :
+        \/ t = "prepare"    /\ (acct.out \in {"err", "empty"} \/ randao.out = "err")
+        \/ t = "graffiti"   /\ graffiti = "err"
+        \/ t = "nodeclient" /\ nodeclient = "err"
+        \/ t = "auction"    /\ auction.kind = "err"
+        \/ t = "fetch"      /\ preq # NoPreq /\ prop = NoProp
+        \/ t = "wrongslot"  /\ prop # NoProp /\ prop.slot # duty.slot
+        \/ t = "sign"       /\ sreq # NoSreq /\ sig = 0
+        \/ t = "unblind"    /\ sig # 0 /\ prop.blinded /\ submitted = NoSub
+        \/ t = "submit"     /\ subout = "err"
+        \/ t = "cancelled"  /\ cancelled}
+
+\* The same service instance is handed its next duty once Propose has returned for the current one.
+\* Nothing but the configuration is carried over: the new duty starts from a clean pipeline whatever
+\* `Failures` says about the duty that is over and `past` about the ones before it.
+NextDuty(slot, v) ==
+    /\ pc = "done"
+    /\ k < NDuties
+    /\ k' = k + 1
+    /\ past' = past \cup Failures
+    /\ duty' = [slot |-> slot, v |-> v]
+    /\ ResetPipeline
+    /\ UNCHANGED cfg
+
+\* the history is over (keeps TLC's deadlock check meaningful: a state without successor is a Propose
+\* that cannot return or a duty that cannot be started)
+Finished ==
+    /\ pc = "done" /\ k = NDuties
+    /\ UNCHANGED vars
 
 -----------------------------------------------------------------------------
 (* The design: the arguments the code is supposed to pass, and when it may stop. *)
 
+\* bounds of the model: the first duty of an instance ranges over the full sets, later ones over reduced sets
+Bound(first, later) == IF k = 1 THEN first ELSE later
+
 \* Env_BlindedNeedsAuction: a beacon node only hands out a blinded proposal when the auction produced
-\* results (a blinded proposal without them is the crash accounted under C16).
-Proposals == { p \in [version : Versions, blinded : BOOLEAN, slot : {duty.slot - 1, duty.slot, duty.slot + 1},
-                      id : {1}] :
+\* results (a blinded proposal without them is accounted under C16).
+Proposals == { p \in [version : Bound(Versions, LaterVersions), blinded : BOOLEAN,
+                      slot : {duty.slot + d : d \in Bound(Dslots, LaterDslots)}, id : {1}] :
                  p.blinded => (p.version \in Blindable /\ auction.kind = "results") }
 
 MayReturn ==
@@ -213,39 +309,58 @@ MayReturn ==
     \/ pc = "signed" /\ sig # 0 /\ prop.blinded /\ (cancelled \/ Cand = {}) \* nothing to submit
     \/ pc = "submitted"
 
+\* the design never reads k or past except to bound the environment
 Next ==
     \/ \E out \in {"ok", "err", "empty"} : AccountsCall(Epoch(duty.slot), <<duty.v>>, out)
     \/ \E out \in {"ok", "err"} : RandaoCall(duty.v, duty.slot, out, 1)
     \/ ProposeCall
-    \/ \E out \in {"ok", "err"} : GraffitiCall(out)
-    \/ AuctionCall("err", {}, {})
-    \/ \E all \in AllChoices : \E providers \in SUBSET all : AuctionCall("results", all, providers)
-    \/ ProposalCall(duty.slot, graffiti # "ok", randao.token, "err", NoProp)
-    \/ \E p \in Proposals : ProposalCall(duty.slot, graffiti # "ok", randao.token, "ok", p)
+    \/ \E out \in {"static", "template", "err"} : GraffitiCall(out)
+    \/ \E out \in {"ok", "err"} : NodeClientCall(out)
+    \/ pc = "auction" /\ AuctionCall("err", {}, {})
+    \/ /\ pc = "auction"
+       /\ \E all \in Bound(AllChoices, LaterAllChoices) : \E providers \in SUBSET all :
+            AuctionCall("results", all, providers)
+    \/ /\ pc = "proposal"
+       /\ \/ ProposalCall(duty.slot, graffiti \notin {"static", "template"}, randao.token, "err", NoProp)
+          \/ \E p \in Proposals :
+                ProposalCall(duty.slot, graffiti \notin {"static", "template"}, randao.token, "ok", p)
     \/ /\ prop.slot = duty.slot
        /\ \E out \in {"ok", "err"} :
             SignCall(duty.v, duty.slot, duty.v, Root(prop.id, "parent"), Root(prop.id, "state"),
                      Root(prop.id, "body"), out, 1)
     \/ /\ pc = "signed" /\ prop.blinded
-       /\ \E r \in Cand : \E out \in Outcomes : UnblindCall(r, SignedQ(prop, sig), out)
+       /\ \E r \in Cand : \E out \in Bound(Outcomes, LaterOutcomes) : UnblindCall(r, SignedQ(prop, sig), out)
     \/ pc = "signed" /\ sig # 0 /\ prop.blinded /\ Cancel
     \/ /\ sig # 0 /\ ~prop.blinded
        /\ \E out \in {"ok", "err"} : SubmitCall(OwnDesc(prop, sig), out)
     \/ /\ sig # 0 /\ prop.blinded
        /\ \E f \in fulls : \E out \in {"ok", "err"} : SubmitCall(RelayDesc(f.relay, f.q), out)
     \/ MayReturn /\ Ret
+    \/ \E g \in SlotGaps : \E v \in Validators : NextDuty(duty.slot + g, v)
+    \/ Finished
 
 Spec == Init /\ [][Next]_vars
+
+\* every step that can be taken is eventually taken: the environment answers every call, the context of a
+\* proposal whose relays do not deliver eventually ends, the controller hands over the next duty
+LiveSpec == Spec /\ WF_vars(Next)
 
 -----------------------------------------------------------------------------
 (* Property C05 *)
 
 TypeOK ==
+    /\ k \in 1..NDuties
+    /\ past \subseteq FailureTags
+    /\ cfg \in Cfgs
     /\ pc \in {"start", "randao", "prepfailed", "prepared", "done"} \cup ProposePcs
-    /\ graffiti \in {"none", "ok", "err"}
+    /\ graffiti \in {"none", "static", "template", "err"}
+    /\ nodeclient \in {"none", "ok", "err"}
     /\ auction.kind \in {"none", "err", "results"}
     /\ cancelled \in BOOLEAN
     /\ \A r \in Relays : calls[r] \in 0..MaxCalls
+
+\* the duty came out of Prepare with an account and a RANDAO reveal
+Prepared == randao.out = "ok"
 
 \* "asks for a RANDAO reveal and for a block signature only for that duty's validator and slot"
 OnlyDutySigner ==
@@ -276,9 +391,39 @@ NothingWithoutUnblind ==
     (submitted # NoSub /\ prop.blinded) => \E f \in fulls : f.relay = submitted.relay
 
 \* "failure to obtain graffiti or relay bids degrades to an ungraffitied or locally built block instead
-\*  of skipping the proposal": the proposal is still requested (without graffiti), seen when Propose returns
+\*  of skipping the proposal": the proposal is still requested (without graffiti), seen when Propose returns.
+\*  A failed node client lookup is a failure inside the graffiti acquisition: same rule (what graffiti the
+\*  request then carries - the template unaltered, or none - is not judged).
 DegradesNotSkips ==
-    (pc = "done" /\ (graffiti = "err" \/ auction.kind = "err")) =>
+    (pc = "done" /\ (graffiti = "err" \/ nodeclient = "err" \/ auction.kind = "err")) =>
         /\ preq # NoPreq
         /\ graffiti = "err" => preq.zerograffiti
+
+\* "a proposal duty ... signs ... and submits exactly that block": when Propose has returned for a prepared
+\*  duty and the job context has not ended, every stage the duty could reach was carried out - the proposal
+\*  was requested; a proposal for the duty's slot was put to the signer; a signed full block was handed to
+\*  the submitter; a signed blinded block for which a relay revealed the full block led to a submission.
+\*  (Nothing is demanded once the context has ended.)
+\*  Holding for every duty k of a history, this is the history rule: whatever `past` contains, the next
+\*  duty is still fetched, signed and submitted.
+CompletesDuty ==
+    (pc = "done" /\ Prepared /\ ~cancelled) =>
+        /\ preq # NoPreq
+        /\ (prop # NoProp /\ prop.slot = duty.slot) => sreq # NoSreq
+        /\ (sig # 0 /\ ~prop.blinded) => submitted # NoSub
+        /\ (sig # 0 /\ prop.blinded /\ fulls # {}) => submitted # NoSub
+
+\* The rules of one duty.
+PerDuty == /\ OnlyDutySigner /\ SignedIsSelected /\ SubmittedIntact /\ NothingWithoutUnblind
+           /\ DegradesNotSkips /\ CompletesDuty
+
+\* The history rule, spelled out: the rules of a duty do not depend on what happened to earlier duties of
+\* the same service instance, and a duty starts with nothing left over from them.
+HistoryIndependent ==
+    /\ past \in SUBSET FailureTags => PerDuty
+    /\ pc = "start" => CleanPipeline
+
+\* every duty of the history is dealt with and Propose returns for it (checked under LiveSpec; together with
+\* TLC's deadlock check: no reachable state in which a Propose cannot proceed, whatever the history)
+EveryDutyTerminates == <>(pc = "done" /\ k = NDuties)
 =============================================================================
